@@ -46,6 +46,7 @@ type Contract struct {
 	Emits        string // name of callback parameter for the emit idiom
 	Inline       bool
 	NoOverflow   bool // do not generate overflow obligations (documented)
+	Local        bool
 	QuickStride  int
 	ThoroughOnly bool
 	Valid        *Clause                // overflow obligations are proved under this validity condition
@@ -432,6 +433,9 @@ func (cs *ContractSet) parseFile(path, pkgDir string) error {
 			cur.Float = rest
 		case "emits":
 			cur.Emits = rest
+		case "local":
+			// a contract case that is proved but not assumed at call sites
+			cur.Local = true
 		case "nooverflow":
 			cur.NoOverflow = true
 		case "quickstride":
